@@ -114,6 +114,7 @@ def gen_gae_exact(rng, widen):
             "starts": [[flag() for _ in range(n)] for _ in range(T)],
             "last_values": [rng.randint(-4, 4) for _ in range(n)],
             "dones": [flag() for _ in range(n)],
+            "recompute": rng.weighted([(0, 6), (1, 3), (2, 1)]),
         }
         if exact_ok(case):
             return case
@@ -139,6 +140,7 @@ def gen_gae_float(rng, widen):
         "starts": [[int(rng.chance(0.25)) for _ in range(n)] for _ in range(T)],
         "last_values": [f() for _ in range(n)],
         "dones": [int(rng.chance(0.3)) for _ in range(n)],
+        "recompute": rng.weighted([(0, 6), (1, 3), (2, 1)]),
     }
 
 
@@ -174,6 +176,8 @@ def gen_cases(ctx):
 
 def shrink_candidates(case):
     k = case.get("kind")
+    if case.get("recompute"):
+        yield dict(case, recompute=case["recompute"] - 1)
     if case.get("prelude"):
         for i in range(len(case["prelude"])):
             c = dict(case)
@@ -310,6 +314,12 @@ def run_gae(ctx, case):
     buf = make_buffer(T, n, case["dict"], float(gq), float(lq))
     run_prelude(buf, case)
     fill(buf, case, case["rewards"], case["values"], case["starts"], case["dict"], tagged=False)
+    # the result is a function of the stored rollout and of THIS call's arguments: earlier calls on the same filled
+    # buffer (other last values / final dones: re-bootstrapping) must leave no trace (seeded change C05-h)
+    for k in range(case.get("recompute", 0)):
+        lv = [-float(x) - 1 - k for x in case["last_values"]][::-1]
+        dn = [1 - int(d) for d in case["dones"]][::-1]
+        buf.compute_returns_and_advantage(th.tensor(lv, dtype=th.float32), np.array(dn, dtype=bool))
     buf.compute_returns_and_advantage(th.tensor(case["last_values"], dtype=th.float32), np.array(case["dones"], dtype=bool))
     adv = np.array(buf.advantages, dtype=np.float64).reshape(T, n)
     ret = np.array(buf.returns, dtype=np.float64).reshape(T, n)
@@ -525,6 +535,8 @@ def check_cases(ctx, cases):
             rep.case(case, case if nt else None)
             rep.count(f"T={case['T']}")
             rep.count(f"prelude_rollouts={len(case.get('prelude') or [])}")
+            if k in ("gae_exact", "gae_float"):
+                rep.count(f"earlier_compute_calls_on_same_rollout={case.get('recompute', 0)}")
             rep.count("dict" if case["dict"] else "array")
             if r is None:
                 continue
